@@ -180,12 +180,12 @@ class Numbers:
 class Functools:
     def sym_getattr(self, ctx, name):
         if name == 'reduce':
-            def reduce(ctx, fn, seq):
-                if fn is not npsets.np_union1d:
+            def reduce(ctx, fn, seq, *initial):
+                if fn is not npsets.np_union1d or len(initial) > 1:
                     raise Unsupported('functools.reduce of %r' % (fn,))
                 S = ctx.c12_state
                 S.reduced = seq
-                return npsets.reduce_union1d(ctx, seq)
+                return npsets.reduce_union1d(ctx, seq, *initial)
             return reduce
         raise Unsupported('functools.' + name)
 
@@ -367,9 +367,9 @@ class Wrapper(Contract):
 # unique although the docstring promises "a unique array, i.e. a strict monotonic increasing array"; PrunedBasis.__init__ then builds
 # a dof map with repeated entries.  The documented clause fails on the unchanged tree, so these two contracts are kept here and
 # are NOT part of contracts(); the '+any-f' variants state what the code does deliver, the '+sorted-f' variants the get_support use.
-PARKED = [IntOrVec('intarray'), IntOrVec('boolmask')]
+PARKED = []  # IntOrVec('intarray') / IntOrVec('boolmask') failed on the pinned commit; repaired by a fix: commit, now in contracts()
 
 
 def contracts():
-    return [ComputedSupport()] + [IntOrVec(s) for s in ('int', 'intarray+any-f', 'intarray+sorted-f', 'boolmask+any-f', 'boolmask+sorted-f', 'intarray2d', 'other')] \
+    return [ComputedSupport()] + [IntOrVec(s) for s in ('int', 'intarray', 'boolmask', 'intarray+any-f', 'intarray+sorted-f', 'boolmask+any-f', 'boolmask+sorted-f', 'intarray2d', 'other')] \
         + [Wrapper('dof'), Wrapper('ielem')]
